@@ -372,6 +372,51 @@ func wireSet(app *fiber.App, path string) (map[string]wireCookie, []byte, string
 	return m, out, ""
 }
 
+// lenientSetCookies splits the head of the first response into lines without judging them and
+// returns its Set-Cookie entries (by name, and in order). Used when the strict parser refuses the
+// response: C20 has no well-formedness clause, a byte the handler itself supplied (and that leaves
+// the server just the same without the middleware) must not become a verdict here.
+func lenientSetCookies(out []byte) (map[string]wireCookie, []wireCookie) {
+	head := out
+	if i := bytes.Index(out, []byte("\r\n\r\n")); i >= 0 {
+		head = out[:i]
+	}
+	m := map[string]wireCookie{}
+	var all []wireCookie
+	for _, l := range strings.Split(string(head), "\r\n") {
+		if len(l) < 11 || !strings.EqualFold(l[:11], "set-cookie:") {
+			continue
+		}
+		line := strings.TrimLeft(l[11:], " ")
+		name := line
+		if i := strings.IndexByte(line, '='); i >= 0 {
+			name = line[:i]
+		}
+		sc, bad := strict.ParseSetCookie(line)
+		wc := wireCookie{line: line, sc: sc, class: bad}
+		m[name] = wc
+		all = append(all, wc)
+	}
+	return m, all
+}
+
+// unparseable decides what a response the strict parser refuses means for C20. twinClass is the
+// strict parser's verdict on the SAME handler's response without the middleware ("" = parseable).
+// Same obstacle in both: the byte is the handler's, nothing to judge structurally (counted).
+// Only where the twin parses, or fails differently, has the middleware itself made the response
+// unreadable - that stays a verdict, named so. Returns true when a violation was recorded.
+func unparseable(e *ev.Env, c *ev.Case, class, twinClass string, out []byte, cfg map[string]any) bool {
+	if class == twinClass {
+		stat(e, "unparseable_like_twin", 1)
+		stat(e, "unparseable_like_twin:"+class, 1)
+		return false
+	}
+	e.Violation(c, "wire|middleware-made-response-unparseable|"+class,
+		"the response is rejected by the strict parser although the same handler's response without the middleware is not (or for another reason)",
+		map[string]any{"config": cfg, "without_middleware": map[bool]string{true: "parseable", false: twinClass}[twinClass == ""], "out": printable(string(out))})
+	return true
+}
+
 func wireRead(app *fiber.App, path, cookieHdr string) bool {
 	w := drive.NewWire(app)
 	req := "GET " + path + " HTTP/1.1\r\nHost: h.example\r\n"
@@ -464,10 +509,21 @@ func script(e *ev.Env, c *ev.Case, keyRaw []byte, key string, except []string, c
 			return
 		}
 		e.Eval(1)
+		// the same handler (all cookies, same upstream, same outcome) without the middleware
+		fullTwin := func() (map[string]wireCookie, string) {
+			wf := &world{toSet: w.toSet, upSet: w.upSet, failSet: w.failSet}
+			_, outT, badT := wireSet(newApp(key, except, false, wf), "/")
+			mt, _ := lenientSetCookies(outT)
+			return mt, badT
+		}
+		var twinLines map[string]wireCookie
 		if bad != "" {
-			// a handler-chosen binary value in an excepted cookie could do this; we never generate one
-			e.Violation(c, "wire|response-unparseable:"+bad, "issue response rejected by the strict parser", map[string]any{"config": cfg, "out": printable(string(out))})
-			return
+			mt, badT := fullTwin()
+			twinLines = mt
+			if unparseable(e, c, bad, badT, out, cfg) {
+				return
+			}
+			m, _ = lenientSetCookies(out) // structure read leniently; the clauses below still apply
 		}
 		var mb map[string]wireCookie
 		if round == 0 {
@@ -499,12 +555,11 @@ func script(e *ev.Env, c *ev.Case, keyRaw []byte, key string, except []string, c
 				jar.Store(wc.line, t0)
 				continue
 			}
-			// encrypted name: ciphertext only
-			if wc.class != "" {
-				e.Violation(c, "wire|set-cookie-unparseable:"+wc.class, "Set-Cookie of an encrypted cookie is not a well-formed cookie line", det())
-				continue
+			// encrypted name: ciphertext only - judged on the raw response bytes, readable line or not
+			val, haveVal := "", false
+			if wc.sc != nil {
+				val, haveVal = wc.sc.Value, true
 			}
-			val := wc.sc.Value
 			leak := ""
 			core := ck.p.core
 			if len(core) >= 6 {
@@ -513,12 +568,30 @@ func script(e *ev.Env, c *ev.Case, keyRaw []byte, key string, except []string, c
 					leak = "plaintext-in-response-bytes"
 				case containsEncoded(out, core):
 					leak = "base64-of-plaintext-in-response-bytes"
-				case decodedContains(val, core):
+				case haveVal && decodedContains(val, core):
 					leak = "plaintext-inside-base64-value"
 				}
 			}
-			if val == ck.p.v && ck.p.v != "" {
+			if haveVal && val == ck.p.v && ck.p.v != "" {
 				leak = "value-not-encrypted"
+			}
+			if wc.class != "" {
+				// the line is not a well-formed cookie line. Not a C20 clause by itself: only if the
+				// same handler's line without the middleware IS well-formed has the middleware made it so
+				if leak != "" {
+					e.Violation(c, "confidentiality|wire-set-cookie|"+leak, "plaintext of an encrypted cookie is visible on the wire", det())
+					continue
+				}
+				if twinLines == nil {
+					twinLines, _ = fullTwin()
+				}
+				if tl, okT := twinLines[ck.name]; okT && tl.class == "" {
+					e.Violation(c, "wire|middleware-made-set-cookie-unparseable|"+wc.class,
+						"Set-Cookie of an encrypted cookie is not a well-formed cookie line although the same handler's line without the middleware is", det())
+				} else {
+					stat(e, "set_cookie_line_unparseable_like_twin", 1)
+				}
+				continue
 			}
 			if leak != "" {
 				e.Violation(c, "confidentiality|wire-set-cookie|"+leak, "plaintext of an encrypted cookie is visible on the wire", det())
@@ -943,7 +1016,11 @@ func longValue(e *ev.Env, c *ev.Case, fixedLen int) {
 			return
 		}
 		if bad != "" {
-			e.Violation(c, "wire|response-unparseable:"+bad, "issue response rejected by the strict parser", cfg)
+			wf := &world{toSet: w.toSet}
+			_, _, badT := wireSet(newAppCfg(fiber.Config{ReadBufferSize: 128 * 1024}, key, except, false, wf), "/")
+			if !unparseable(e, c, bad, badT, out, cfg) && bytes.Contains(out, []byte(core)) {
+				e.Violation(c, "confidentiality|wire-set-cookie|plaintext-in-response-bytes", "plaintext of an encrypted cookie is visible on the wire", cfg)
+			}
 			return
 		}
 		if bytes.Contains(out, []byte(core)) {
@@ -1099,7 +1176,16 @@ func sameName(e *ev.Env, c *ev.Case, fixedK int, fixedExcepted bool) {
 	e.Eval(1)
 	stat(e, "samename_cases", 1)
 	if bad != "" {
-		e.Violation(c, "wire|response-unparseable:"+bad, "issue response rejected by the strict parser", cfg)
+		wTwin.toSet = w.toSet
+		_, _, badT := wireSetAll(twin, "/")
+		if !unparseable(e, c, bad, badT, out, cfg) {
+			for _, v := range append(append([]string(nil), vals...), ordVal) {
+				if bytes.Contains(out, []byte(v)) {
+					e.Violation(c, "confidentiality|wire-set-cookie|several-set-cookie-lines-of-one-name", "with several Set-Cookie entries of one name the plaintext of one of them is visible on the wire", cfg)
+					break
+				}
+			}
+		}
 		return
 	}
 	var wl []string
